@@ -302,6 +302,18 @@ def run(ctx):
                      simulate=1200)
         else:
             jobs.add(k, "LookupLayout", "LL_%s.cfg" % k, text, "LookupLayout exhaustive (%s)" % k, timeout=1500)
+    # the 16-bit boundary to the byte (LookupLayoutEdge.tla): one subtable size runs through 65406..65544 in steps of
+    # two; TLC prints the plans in which a Lookup table or a subtable offset lands within 4 bytes of 65536
+    edge_cfg = (_layout_cfg([10], 3, 2, mfs=(False, True), emit=False, fix=True,
+                            inv=INV.replace("INVARIANT Emit\n", "INVARIANT EmitEdge\n").replace("INVARIANT DemandNoNeedlessRefusal\n", ""))
+                .replace("INIT Init", "INIT EdgeInit")
+                .replace("CONSTANTS\n", "CONSTANTS\n  EdgeSizes = %s\n  Within = 4\n" % _set(range(65536 - 130, 65536 + 10, 2))))
+    jobs.add("edge", "LookupLayoutEdge", "LL_edge.cfg", edge_cfg, "LookupLayoutEdge: plans that land within 4 bytes of 65536",
+             timeout=1500)
+    # the same next to lookups that are too big anyway: some lookups are replaced by extension records, a lookup of the
+    # swept size stays as it is and pushes the biggest lookup to the boundary
+    jobs.add("edge2", "LookupLayoutEdge", "LL_edge2.cfg", edge_cfg.replace("Sizes = {10}", "Sizes = {66000}"),
+             "LookupLayoutEdge: plans that land within 4 bytes of 65536 (next to lookups of 66000 bytes)", timeout=1500)
     # the design of proposed-fixes/C08-1.diff satisfies the demand on every plan
     jobs.add("fixdesign", "LookupLayout", "LL_fix.cfg",
              _layout_cfg([100, 30000, 40000], ctx.pick(2, 3), 3, mfs=(False, True) if quick else (False,), emit=False, fix=True,
@@ -424,6 +436,42 @@ def run(ctx):
         q["what"] = "plan"
         q.pop("big", None)      # index of the biggest lookup in the model; "big" means something else for shapes
         lines.append(q)
+    # plans at the 16-bit boundary: a seeded sample of every class (reordering, number of replaced lookups, which
+    # lookups carry a markFilteringSet word, subtable counts, distance to 65536) in the quick tier, all of them otherwise
+    ecases = []
+    for k in ("edge", "edge2"):
+        er = R[k]
+        if not er.ok or not er.cases:
+            raise vlib.Infra("LookupLayoutEdge.tla (%s) failed or found no plan at the boundary: %s"
+                             % (k, er.violated or er.error_text[:500]))
+        ecases += er.cases
+    eclass = {}
+    seen_ll = set()
+    for p in sorted(ecases, key=lambda c: (c["near"], json.dumps(c, sort_keys=True))):
+        key_ll = (json.dumps(p["ll"], sort_keys=True), p["at"])
+        if key_ll in seen_ll:
+            continue
+        seen_ll.add(key_ll)
+        # class: where the boundary is met (final layout / running estimate), reordering, number of replaced lookups,
+        # which lookups carry a markFilteringSet word, subtable counts, next to over-sized lookups or not
+        k = (p["at"], p["tooLarge"], p["nrepl"], tuple(l["mfs"] for l in p["ll"]), tuple(len(l["subs"]) for l in p["ll"]),
+             max(x for l in p["ll"] for x in l["subs"]) > 65600)
+        eclass.setdefault(k, []).append(p)
+    nedge = 0
+    for k in sorted(eclass, key=repr):
+        g = eclass[k]            # nearest to 65536 first; the quick tier takes, per class, one plan at every distance
+        dist_seen = set()
+        for p in g:
+            if quick and (p["near"] in dist_seen or (k[0] == "layout" and p["near"] > 0)):
+                continue
+            dist_seen.add(p["near"])
+            q = dict(p)
+            q["what"] = "plan"
+            for f in ("big", "near", "at"):
+                q.pop(f, None)
+            lines.append(q)
+            nedge += 1
+    ctx.cov["bounds"]["edge_plans"] = {"model_plans_within_4_bytes_of_65536": len(ecases), "classes": len(eclass), "realised": nedge}
     # contextual-only lookup lists (the encoder must still know whether 7 or 9 is the extension type)
     ctxv = [p for p in chosen if p["tooLarge"] and p["nrepl"] > 0][:ctx.pick(6, 60)]
     for i, p in enumerate(ctxv):
